@@ -48,6 +48,8 @@ pub enum Op {
     HoldOpens(bool),
     /// let n seconds of virtual time pass
     Wait(u32),
+    /// the connection between the requester and the unrelated third node ends
+    CutBystander,
 }
 
 #[derive(Clone, Debug, Serialize, Deserialize)]
@@ -61,6 +63,9 @@ pub struct RrScenario {
     /// connection dies immediately, possibly before the protocol has handled `ConnectionEstablished`
     #[serde(default)]
     pub remote_refuses: bool,
+    /// a third node C (same protocol, answers) is connected to the requester; `Op::CutBystander` ends that connection
+    #[serde(default)]
+    pub bystander: bool,
 }
 
 #[derive(Debug, Clone)]
@@ -89,6 +94,7 @@ pub struct St {
     peer_b: PeerId,
     wait: Option<u32>,
     node_a: usize,
+    node_b: usize,
 }
 
 fn payload(idx: u8, size: usize) -> Vec<u8> {
@@ -220,13 +226,23 @@ impl Scenario for RrScenario {
             w.nodes[a].cmd.send(NodeCmd::AddKnown(peer_b, addr_b)).unwrap();
         }
         w.run_to_quiescence(50_000);
+        if self.bystander {
+            let (cfg_c, handle_c) = mk(None);
+            let c = w
+                .add_node(23, ConfigBuilder::new().with_request_response_protocol(cfg_c).with_keep_alive_timeout(Duration::from_secs(60)))
+                .expect("node c");
+            let _c_log = spawn_responder(w, c, handle_c, Resp::Answer);
+            let addr_c = w.nodes[c].address.clone();
+            w.nodes[a].cmd.send(NodeCmd::DialAddress(addr_c)).unwrap();
+            w.run_to_quiescence(50_000);
+        }
         if self.fail_first_dial {
             let next = 0;
             // ordinal of node a's next transport-level dial
             let ord = if self.connected { 1 } else { next };
             w.faults.fail_dials.insert((a, ord));
         }
-        St { a_cmd, a_log, b_log, pc: 0, peer_b, wait: None, node_a: a }
+        St { a_cmd, a_log, b_log, pc: 0, peer_b, wait: None, node_a: a, node_b: b }
     }
 
     fn lazy_count(&self, st: &St, _w: &World) -> usize {
@@ -250,7 +266,18 @@ impl Scenario for RrScenario {
             }
             Op::CutLink => {
                 for k in 0..w.links.len() {
-                    w.cut_link(k);
+                    let (x, y) = (w.links[k].a, w.links[k].b);
+                    if (x == st.node_a && y == st.node_b) || (x == st.node_b && y == st.node_a) {
+                        w.cut_link(k);
+                    }
+                }
+            }
+            Op::CutBystander => {
+                for k in 0..w.links.len() {
+                    let (x, y) = (w.links[k].a, w.links[k].b);
+                    if x != st.node_b && y != st.node_b {
+                        w.cut_link(k);
+                    }
                 }
             }
         }
@@ -374,34 +401,34 @@ pub fn scenarios(thorough: bool) -> Vec<RrScenario> {
                     continue;
                 }
                 let program: Vec<Op> = (0..n).map(|i| send(i, true)).collect();
-                v.push(RrScenario { connected, program, responder, max_inbound: None, fail_first_dial: false, remote_refuses: false });
+                v.push(RrScenario { connected, program, responder, max_inbound: None, fail_first_dial: false, remote_refuses: false, bystander: false });
             }
             // cancel at any point of a 2-request program
             for pos in 1..=2usize {
                 let mut program = vec![send(0, true), send(1, true)];
                 program.insert(pos, Op::Cancel { idx: 0 });
-                v.push(RrScenario { connected, program, responder, max_inbound: None, fail_first_dial: false, remote_refuses: false });
+                v.push(RrScenario { connected, program, responder, max_inbound: None, fail_first_dial: false, remote_refuses: false, bystander: false });
             }
             // connection drops after the requests were handed over
-            v.push(RrScenario { connected, program: vec![send(0, true), send(1, true), Op::CutLink], responder, max_inbound: None, fail_first_dial: false, remote_refuses: false });
+            v.push(RrScenario { connected, program: vec![send(0, true), send(1, true), Op::CutLink], responder, max_inbound: None, fail_first_dial: false, remote_refuses: false, bystander: false });
         }
         // dial failure
-        v.push(RrScenario { connected, program: vec![send(0, true), send(1, true)], responder: Resp::Answer, max_inbound: None, fail_first_dial: true, remote_refuses: false });
+        v.push(RrScenario { connected, program: vec![send(0, true), send(1, true)], responder: Resp::Answer, max_inbound: None, fail_first_dial: true, remote_refuses: false, bystander: false });
         // no dial allowed
-        v.push(RrScenario { connected, program: vec![send(0, false), send(1, true)], responder: Resp::Answer, max_inbound: None, fail_first_dial: false, remote_refuses: false });
+        v.push(RrScenario { connected, program: vec![send(0, false), send(1, true)], responder: Resp::Answer, max_inbound: None, fail_first_dial: false, remote_refuses: false, bystander: false });
         // try_send
-        v.push(RrScenario { connected, program: vec![Op::Send { idx: 0, dial: true, size: 3, try_send: true }, Op::Send { idx: 1, dial: true, size: 3, try_send: true }], responder: Resp::Answer, max_inbound: None, fail_first_dial: false, remote_refuses: false });
+        v.push(RrScenario { connected, program: vec![Op::Send { idx: 0, dial: true, size: 3, try_send: true }, Op::Send { idx: 1, dial: true, size: 3, try_send: true }], responder: Resp::Answer, max_inbound: None, fail_first_dial: false, remote_refuses: false, bystander: false });
     }
     // the remote refuses the connection right after it was negotiated
     for n in 1..=2u8 {
         let program: Vec<Op> = (0..n).map(|i| send(i, true)).collect();
-        v.push(RrScenario { connected: false, program, responder: Resp::Answer, max_inbound: None, fail_first_dial: false, remote_refuses: true });
+        v.push(RrScenario { connected: false, program, responder: Resp::Answer, max_inbound: None, fail_first_dial: false, remote_refuses: true, bystander: false });
     }
     // the requester's substream is slow to open: the request times out (4 s) before the substream exists, is cancelled,
     // or the connection drops first; the late substream must not produce a second event
     for responder in [Resp::Answer, Resp::Stall] {
         for connected in [true, false] {
-            let mk = |program: Vec<Op>| RrScenario { connected, program, responder, max_inbound: None, fail_first_dial: false, remote_refuses: false };
+            let mk = |program: Vec<Op>| RrScenario { connected, program, responder, max_inbound: None, fail_first_dial: false, remote_refuses: false, bystander: false };
             if responder == Resp::Answer {
                 v.push(mk(vec![Op::HoldOpens(true), send(0, true), Op::Wait(5), Op::HoldOpens(false)]));
                 v.push(mk(vec![Op::HoldOpens(true), send(0, true), Op::Cancel { idx: 0 }, Op::HoldOpens(false), send(1, true)]));
@@ -414,13 +441,18 @@ pub fn scenarios(thorough: bool) -> Vec<RrScenario> {
             }
         }
     }
+    // an unrelated connection of the requester ends while requests to B are in flight: they must be unaffected
+    for responder in [Resp::Answer, Resp::Stall] {
+        v.push(RrScenario { connected: true, program: vec![send(0, true), Op::CutBystander, send(1, true)], responder, max_inbound: None, fail_first_dial: false, remote_refuses: false, bystander: true });
+    }
+    v.push(RrScenario { connected: false, program: vec![send(0, true), Op::CutBystander], responder: Resp::Answer, max_inbound: None, fail_first_dial: false, remote_refuses: false, bystander: true });
     // payload sizes
     for size in [0usize, 1, MAX_SIZE, MAX_SIZE + 1] {
-        v.push(RrScenario { connected: true, program: vec![Op::Send { idx: 0, dial: true, size, try_send: false }, send(1, true)], responder: Resp::Answer, max_inbound: None, fail_first_dial: false, remote_refuses: false });
+        v.push(RrScenario { connected: true, program: vec![Op::Send { idx: 0, dial: true, size, try_send: false }, send(1, true)], responder: Resp::Answer, max_inbound: None, fail_first_dial: false, remote_refuses: false, bystander: false });
     }
     // inbound bound
     for responder in [Resp::Answer, Resp::Stall] {
-        v.push(RrScenario { connected: true, program: vec![send(0, true), send(1, true), send(2, true)], responder, max_inbound: Some(1), fail_first_dial: false, remote_refuses: false });
+        v.push(RrScenario { connected: true, program: vec![send(0, true), send(1, true), send(2, true)], responder, max_inbound: Some(1), fail_first_dial: false, remote_refuses: false, bystander: false });
     }
     v
 }
